@@ -65,6 +65,8 @@ CONSTANTS
   MBothHalves, \* TRUE [code]: both the U and the conj(U) entries are rewritten; FALSE: mutant
   MFreshLinks, \* TRUE [code]: link variables recomputed on every call; FALSE: mutant (cached from first refresh)
   MFixPsi,     \* TRUE [code]: rows are pinned only when fix_psi; FALSE: mutant (fix_psi ignored)
+  MUnitDirs,   \* FALSE [code]: the link exponent of edge e is A . (r_j - r_i); TRUE: mutant (A . unit vector of the edge, in the
+               \* build AND in the refresh: they agree with each other, only the first-principles Build* disagrees)
   MMemoLpsi,   \* FALSE [code]: every Euler step multiplies psi by the Laplacian held at that moment; TRUE: mutant
                \* (the product psi_laplacian @ psi is memoised per psi array, i.e. per solve step: screening iterations
                \* >= 2 use the product formed before the Laplacian was refreshed)
@@ -209,12 +211,15 @@ OpsFixPsi == IF ~MFixPsi THEN TRUE
              ELSE FixPsi
 BuildFixed == IF OpsFixPsi THEN FixedSites ELSE {}            \* the rows the build pins (mechanism)
 
+\* the link configuration the mechanism works with (q[e] = 2/pi A.(r_j - r_i); with unit vectors it is divided by len)
+MechQ(q) == IF MUnitDirs THEN [e \in EdgesOf(M) |-> q[e] \div M.len[e]] ELSE q
+
 (* ---- the cache ---- *)
 Build(q) ==
   /\ ~built
   /\ built' = TRUE
-  /\ lap' = BuildLap(M, q, BuildFixed)
-  /\ grad' = BuildGrad(M, q)
+  /\ lap' = BuildLap(M, MechQ(q), BuildFixed)
+  /\ grad' = BuildGrad(M, MechQ(q))
   /\ freeRows' = FreeRowsOf(M, BuildFixed)
   /\ linkQ' = q
   /\ firstQ' = firstQ
@@ -222,7 +227,7 @@ Build(q) ==
 
 Refresh(q) ==
   /\ built
-  /\ LET qq == IF MFreshLinks \/ firstQ = <<>> THEN q ELSE firstQ
+  /\ LET qq == MechQ(IF MFreshLinks \/ firstQ = <<>> THEN q ELSE firstQ)
          mask == IF OpsFixPsi /\ MMask THEN freeRows ELSE [k \in 1..2 * NE(M) |-> TRUE]
      IN /\ lap' = RefreshLap(M, lap, qq, mask)
         /\ grad' = RefreshGrad(M, grad, qq)
